@@ -3,7 +3,7 @@
    [ms] is one of the orders in which the Go code may put the stream [s] on the channel (map iterations are free);
    [client ms] is what a policy-sync client holds after applying [ms] in order. *)
 From Coq Require Import List Arith Bool Permutation.
-From Verif.C31 Require Import Model Spec ListedOnce Proofs Final Final2 Oracle2 Split SplitProofs.
+From Verif.C31 Require Import Model Spec ListedOnce Proofs Final Final2 Oracle2 Split SplitProofs Chunked DeltaOk ChunkedFinal.
 Import ListNotations.
 
 (* The Processor never panics on a history the calculation graph can produce. *)
@@ -84,27 +84,45 @@ Theorem c31_listed_once_visits_once : forall e, listed_once e = true -> has_dup 
 Proof. exact listed_once_nodup. Qed.
 Print Assumptions c31_listed_once_visits_once.
 
-(* IP set messages above MaxMembersPerMessage.  PARTIAL with respect to the property: the two theorems below are complete
-   statements about the splitters splitIPSetUpdate / splitIPSetDeltaUpdate as functions (Split.v; tied to the real
-   functions by the correspondence run on lists around 82200 members) - for EVERY chunk size n >= 1, applying the
-   split messages in order gives the client exactly the set the unsplit message would give, and every message fits.
-   What is missing: the Processor model (Model.v) and the stream theorems above assume fewer than MaxMembersPerMessage
-   members per update, i.e. they are not re-proved with multi-message blocks inside the unordered groups.
-   Note the hypothesis of the delta theorem: no member is both added and removed by one delta (the calculation graph
-   coalesces deltas that way); without it a removal chunk sent before a later addition chunk would be overridden. *)
-Theorem c31_split_update_complete_partial : forall n s l cur, 1 <= n ->
+(* IP set messages above MaxMembersPerMessage (splitMembers / splitIPSetUpdate / splitIPSetDeltaUpdate, Split.v; tied to
+   the real functions by the correspondence run on lists around 82200 members).  For EVERY chunk size n >= 1: applying
+   the split messages in order gives the client exactly the set the unsplit message would give, and every message fits.
+   The delta theorem needs: no member is both added and removed by one delta (the calculation graph coalesces deltas
+   that way); without it a removal chunk sent before a later addition chunk would be overridden. *)
+Theorem c31_split_update_complete : forall n s l cur, 1 <= n ->
   Forall (fits n) (split_update n s l) /\
   exists m', fold_left sapply (split_update n s l) cur = Some m' /\ forall x, In x m' <-> In x l.
 Proof. exact split_update_complete. Qed.
-Print Assumptions c31_split_update_complete_partial.
+Print Assumptions c31_split_update_complete.
 
-Theorem c31_split_delta_complete_partial : forall n s added removed m0, 1 <= n ->
+Theorem c31_split_delta_complete : forall n s added removed m0, 1 <= n ->
   (forall x, In x added -> ~ In x removed) ->
   Forall (fits n) (split_delta n s added removed) /\
   exists m', fold_left sapply (split_delta n s added removed) (Some m0) = Some m'
     /\ forall x, In x m' <-> In x (members_delta m0 added removed).
 Proof. exact split_delta_complete. Qed.
-Print Assumptions c31_split_delta_complete_partial.
+Print Assumptions c31_split_delta_complete.
+
+(* Chunked IP set messages INSIDE the stream theorems.  A chunked stream ([linb n], Chunked.v) is a model stream in
+   which every IPSetUpdate is replaced by the chunks splitIPSetUpdate makes of its members listed in ANY order (the
+   Processor lists them in Go map order) and every IPSetDeltaUpdate by the chunks of splitIPSetDeltaUpdate; inside an
+   unordered group whole blocks may be permuted, chunks of a block stay together and in order.  For every chunk size
+   n >= 1 (so also n = 82200), on histories whose deltas never add and remove the same member ([op_ok]):
+   referential integrity and own-endpoint hold after EVERY SINGLE CHUNK, and a connected workload's client is what the
+   specification expects, the member lists being equal as sets ([ceq]). *)
+Theorem c31_chunked_refs_before_use : forall ops n, valid ops = true -> Forall op_ok ops -> 1 <= n ->
+  forall j w c s, In (j, (w, c, s)) (channels (fst (run ops))) ->
+  forall msb, linb n (groups s) msb -> snd (apply_checked w cinit msb) = true.
+Proof. exact chunked_refs_before_use. Qed.
+Print Assumptions c31_chunked_refs_before_use.
+
+Theorem c31_chunked_complete_latest : forall ops w j uid, valid ops = true -> Forall op_ok ops ->
+  lookup w (t_conn (truth_of ops)) = Some (j, uid) ->
+  exists ei s, lookup w (eps (fst (run ops))) = Some ei /\ e_out ei = Some (j, s) /\
+    forall n msb, 1 <= n -> linb n (groups s) msb ->
+      exists cs0, expected (truth_of ops) w cs0 = true /\ ceq (client msb) cs0.
+Proof. exact chunked_complete_latest. Qed.
+Print Assumptions c31_chunked_complete_latest.
 
 (* Non-vacuity: a valid history with IP sets, a policy, a profile, two workloads, a re-join and a leave; workload 0
    is connected on its second channel, whose stream has unordered groups with more than one message. *)
@@ -142,3 +160,26 @@ Example c31_example_split :
   split_update 2 0 [1; 2; 3; 4; 5] = [MIPSetUpdate 0 [1; 2]; MIPSetDelta 0 [3; 4] []; MIPSetDelta 0 [5] []]
   /\ split_delta 2 0 [1; 2; 3] [7; 8; 9] = [MIPSetDelta 0 [1; 2] []; MIPSetDelta 0 [3] [9]; MIPSetDelta 0 [] [7; 8]].
 Proof. vm_compute. split; reflexivity. Qed.
+
+(* Non-vacuity of the chunked theorems: with chunk size 2 the update of a three-member set (members listed in another
+   order) is a block of two messages. *)
+Example c31_example_chunked :
+  linb 2 [[MIPSetUpdate 0 [1; 2; 3]]] [MIPSetUpdate 0 [3; 1]; MIPSetDelta 0 [2] []].
+Proof.
+  assert (SE : seteq [3; 1; 2] [1; 2; 3]) by (intro x; simpl; tauto).
+  exact (linb_cons 2 _ _ [split_update 2 0 [3; 1; 2]] _ [] (Forall2_cons _ _ (blk_upd 2 0 _ _ SE) (Forall2_nil _)) (Permutation_refl _) (linb_nil 2)).
+Qed.
+
+(* Minimality with a policy listed in BOTH directions: endpoint 0 first lists policy 0 (ingress and egress) and
+   policy 1, then only policy 0 (still both directions); the history is valid, policy 1 is removed from the stream,
+   policy 0 is not, and the client holds exactly policy 0 (c31_complete_latest / c31_only_own_endpoint apply). *)
+Definition canon_chan (ops : list op) (j : nat) : nat * (id * option nat * stream) :=
+  match lookup j (channels (fst (run ops))) with Some x => (j, x) | None => (j, (0, None, [])) end.
+Definition ex_both : list op :=
+  [ OPolUpdate 0 (mkRules 1 [] []); OPolUpdate 1 (mkRules 2 [] []);
+    OWepUpdate 0 (mkEp 3 [mkTier [0; 1] [0]] []); OJoin 0 1; OWepUpdate 0 (mkEp 4 [mkTier [0] [0]] []) ].
+Example c31_example_both_directions :
+  valid ex_both = true
+  /\ listed_once (mkEp 3 [mkTier [0; 1] [0]] []) = true
+  /\ map (fun kv => fst kv) (c_pol (client (concat (groups (snd (snd (canon_chan ex_both 0))))))) = [0].
+Proof. vm_compute. repeat split. Qed.
